@@ -358,7 +358,7 @@ func c09ReadBack(p *harness.Proxy, binary bool, cmds []wire.Cmd, keys []string, 
 // c09RealTime covers what a standing virtual clock cannot: the chunked handler re-inserts a
 // value on append / prepend with an expiry derived from ITS clock, so real time has to pass
 // between the set and the append to tell "keeps the expiry" from "restarts the TTL". All
-// scenarios share one 3 s sleep; the fake backend follows the real clock here.
+// scenarios share one 4 s sleep; the fake backend follows the real clock here.
 func c09RealTime(run *evid.Run) {
 	type sc struct {
 		name string
@@ -371,6 +371,10 @@ func c09RealTime(run *evid.Run) {
 		{"set-append", "append", 1000, "", 0}, {"set-prepend", "prepend", 5000, "", 0},
 		{"set-touch-append", "append", 1000, "touch", 9000}, {"set-gat-prepend", "prepend", 9000, "gat", 2000},
 		{"set-append-multichunk", "append", 3000, "", 0},
+		// a get-and-touch / touch that asks for the very TTL the value was stored with still
+		// restarts it: counted from the command, for the metadata and for every chunk
+		{"set-gat-same-ttl", "gat", 1000, "", 0}, {"set-gat-same-ttl-multichunk", "gat", 3000, "", 0},
+		{"set-touch-same-ttl-multichunk", "touch", 700, "", 0}, {"set-touch-gat-same-ttl", "gat", 50, "touch", 4000},
 	}
 	type inst struct {
 		sc   sc
@@ -402,9 +406,20 @@ func c09RealTime(run *evid.Run) {
 		}
 		insts = append(insts, in)
 	}
-	time.Sleep(3 * time.Second)
+	time.Sleep(4 * time.Second)
 	for _, in := range insts {
-		r := handlerExec(in.h, wire.Cmd{Op: in.sc.op, Key: in.key, Value: []byte("-tail")}, 0)
+		var r wire.Result
+		if in.sc.op == "gat" || in.sc.op == "touch" {
+			ttl := in.sc.ttl
+			if in.sc.then != "" {
+				ttl = in.sc.ttl2
+			}
+			now := uint32(time.Now().Unix())
+			r = handlerExec(in.h, wire.Cmd{Op: in.sc.op, Key: in.key, TTL: ttl, Opaque: 5}, 0)
+			in.want = now + ttl
+		} else {
+			r = handlerExec(in.h, wire.Cmd{Op: in.sc.op, Key: in.key, Value: []byte("-tail")}, 0)
+		}
 		run.Eval(1)
 		run.Count("real_time_scenarios", 1)
 		run.Distinct("realtime|" + in.sc.name)
@@ -422,7 +437,7 @@ func c09RealTime(run *evid.Run) {
 				if diff < 0 {
 					kind = "earlier"
 				}
-				run.Violation(fmt.Sprintf("chunked|real-time|%s|after 3 s of real time %s moves the expiry %s than last requested", in.sc.name, in.sc.op, kind),
+				run.Violation(fmt.Sprintf("chunked|real-time|%s|after 4 s of real time %s leaves an entry with an expiry %s than last requested", in.sc.name, in.sc.op, kind),
 					map[string]interface{}{"scenario": in.sc, "backend_entry": bk, "deadline": e.Deadline, "expected": in.want, "difference_s": diff})
 				break
 			}
